@@ -43,8 +43,11 @@ func (m Modes) Sig() string {
 }
 
 // Options builds rpc.Options for the in-memory network.
-func (m Modes) Options(n *Net) *rpc.Options {
-	o := &rpc.Options{NewSocket: n.NewSocket, NewCodec: BytesCodec, ClientBufferSize: m.CliBuf}
+func (m Modes) Options(n *Net) *rpc.Options { return m.OptionsWith(n, BytesCodec) }
+
+// OptionsWith is Options with a chosen body codec constructor.
+func (m Modes) OptionsWith(n *Net, body func() rpc.Codec) *rpc.Options {
+	o := &rpc.Options{NewSocket: n.NewSocket, NewCodec: body, ClientBufferSize: m.CliBuf}
 	switch m.Enc {
 	case "pb", "code", "json":
 		o.HeaderEncoder = m.Enc
@@ -65,11 +68,18 @@ type Session struct {
 	Conns  []*rpc.Conn
 	served []chan struct{}
 	lisRet chan error
+	// body codec constructors per side (default: the library's bytes codec)
+	SrvCodec, CliCodec func() rpc.Codec
+	// OnLink, when set, sees every new frame link before it carries traffic (taps, holds).
+	OnLink func(*FrameLink)
 }
 
 // NewSession starts the server side.
-func NewSession(m Modes) (*Session, error) {
-	s := &Session{M: m, Env: NewEnv()}
+func NewSession(m Modes) (*Session, error) { return NewSessionWith(m, BytesCodec, BytesCodec) }
+
+// NewSessionWith is NewSession with chosen body codecs per side.
+func NewSessionWith(m Modes, srvCodec, cliCodec func() rpc.Codec) (*Session, error) {
+	s := &Session{M: m, Env: NewEnv(), SrvCodec: srvCodec, CliCodec: cliCodec}
 	s.Srv = NewServer(s.Env, m.SrvPipelining, m.SrvDirect)
 	if m.CtxBuf {
 		s.Srv.SetContextBuffer(true)
@@ -82,7 +92,7 @@ func NewSession(m Modes) (*Session, error) {
 		s.Net.Chunk = m.Chunk
 		s.Addr = fmt.Sprintf("mem-%d", atomic.AddInt64(&sessSeq, 1))
 		s.lisRet = make(chan error, 1)
-		go func() { s.lisRet <- s.Srv.ListenWithOptions(s.Addr, m.Options(s.Net)) }()
+		go func() { s.lisRet <- s.Srv.ListenWithOptions(s.Addr, m.OptionsWith(s.Net, s.SrvCodec)) }()
 		if !s.Net.WaitListening(s.Addr, 5*time.Second) {
 			return nil, errors.New("harness: server did not start listening")
 		}
@@ -95,15 +105,18 @@ func (s *Session) Dial() (*rpc.Conn, error) {
 	var conn *rpc.Conn
 	if s.M.Link == "bytes" {
 		var err error
-		conn, err = rpc.DialWithOptions(s.Addr, s.M.Options(s.Net))
+		conn, err = rpc.DialWithOptions(s.Addr, s.M.OptionsWith(s.Net, s.CliCodec))
 		if err != nil {
 			return nil, err
 		}
 	} else {
 		link := NewFrameLink()
 		s.Links = append(s.Links, link)
-		s.served = append(s.served, ServeLink(s.Srv, link, s.M.Enc, s.M.SrvDirect))
-		conn = NewLinkConn(link, s.M.Enc)
+		if s.OnLink != nil {
+			s.OnLink(link)
+		}
+		s.served = append(s.served, ServeLinkWith(s.Srv, link, s.M.Enc, s.M.SrvDirect, s.SrvCodec()))
+		conn = rpc.NewConnWithCodec(rpc.NewClientCodec(s.CliCodec(), HeaderEncoder(s.M.Enc), link.C, 0))
 	}
 	if s.M.CliPipelining {
 		conn.SetPipelining(true)
